@@ -1033,6 +1033,7 @@ def _check_copy_jacs(ctx: Ctx, f) -> None:
 
 # ---------------------------------------------------------------------------
 WITNESSES = [
+    {"name": "seeded-C09-10", "file": "core/derivatives/jacobian_operator.py", "old": "            return _ComposedOperationArrayOperator(other, self)\n        return _ComposedOperationOperatorOperator(other, self)\n\n", "new": "            return _ComposedOperationArrayOperator(other, self)\n        return _ComposedOperationOperatorOperator(self, other)\n\n", "expect": "9.7", "note": "JacobianOperator.__rmatmul__ composes two operators in the wrong order"},
     {"name": "consume-all-but-the-first-common-input", "file": "core/chains/chain.py", "old": "                    for input_name in common_inputs\n                }", "new": "                    for input_name in common_inputs[1:]\n                }", "expect": "9.1"},
     {"name": "overwritten-variable-block-kept", "file": CH, "old": "                consumed_jac = {\n                    input_name: self.jac[output_name].pop(input_name)\n                    for input_name in common_inputs\n                }\n", "new": "                consumed_jac = {\n                    input_name: self.jac[output_name][input_name]\n                    for input_name in common_inputs\n                }\n", "expect": "9.1"},
     {"name": "contribution-stored-over-existing-block", "file": CH, "old": "                        if new_in in self.jac[output_name]:\n", "new": "                        if new_in in self.jac[output_name] and input_name != new_in:\n", "expect": "9.1"},
